@@ -133,7 +133,14 @@ impl Config {
         v: &serde_yaml::Value,
         verbose: bool,
     ) -> Result<()> {
-        let vstr = serde_yaml::to_string(v)?;
+        // Use string values as-is. Serializing a string as YAML would add quotes to strings
+        // which look like another YAML type (e.g. `'1'` or `'true'`), and the quotes would end
+        // up in paths which are constructed from the value.
+        let vstr = if let Some(s) = v.as_str() {
+            s.to_string()
+        } else {
+            serde_yaml::to_string(v)?
+        };
         let vstr = vstr.trim();
         match k {
             "nodes_uri" => {
